@@ -47,6 +47,10 @@ package escape
 // remove a node or an edge (g <= op(g) in the analysis' ordering). A node that is
 // absent has status Local (0), which is what a map lookup yields.
 
+// Object-level frames: a graph operation only touches the maps of ITS graph.
+//@ macro otherStatusMaps(g) = (forall q map[*Node]EscapeStatus, m *Node :: q != g.status ==> (has(q, m) <==> old(has(q, m))) && q[m] == old(q[m]))
+//@ macro otherRationaleMaps(g) = (forall q map[*Node]*dataflow.EscapeRationale, m *Node :: q != g.rationales ==> (has(q, m) <==> old(has(q, m))) && q[m] == old(q[m]))
+//@ macro otherEdgeMaps(g) = (forall q map[*Node]map[*Node]edgeFlags, m *Node :: q != g.edges ==> (has(q, m) <==> old(has(q, m))) && q[m] == old(q[m]))
 //@ spec wfGraph(g *EscapeGraph) bool = g != nil && g.status != nil && g.edges != nil && g.rationales != nil && (forall m *Node :: has(g.status, m) <==> has(g.edges, m)) && (forall m *Node :: has(g.edges, m) ==> g.edges[m] != nil && allocated(g.edges[m]))
 //@ spec statusGrew(g *EscapeGraph) bool = forall m *Node :: g.status[m] >= old(g.status[m]) && (old(has(g.status, m)) ==> has(g.status, m))
 //@ spec targetsAreNodes(g *EscapeGraph) bool = forall x *Node, y *Node :: has(g.edges, x) && has(g.edges[x], y) ==> has(g.status, y)
@@ -72,6 +76,10 @@ package escape
 //@   ensures new_node_has_no_edges: !old(has(g.status, n)) ==> forall y *Node :: !has(g.edges[n], y)
 //@   ensures only_n_added: forall m *Node :: has(g.edges, m) ==> m == n || old(has(g.edges, m))
 //@   ensures targets_kept: old(targetsAreNodes(g)) ==> targetsAreNodes(g)
+//@   ensures frame_status: otherStatusMaps(g)
+//@   ensures frame_rationales: otherRationaleMaps(g)
+//@   ensures frame_edges: otherEdgeMaps(g)
+//@   ensures new_edge_map_fresh: !old(has(g.edges, n)) ==> fresh(g.edges[n])
 //@   ensures wf: wfGraph(g)
 //@   modifies map(*Node;EscapeStatus), map(*Node;map[*Node]edgeFlags), map(*Node;*dataflow.EscapeRationale)
 
@@ -88,6 +96,12 @@ package escape
 //@   requires g != nil && g.status != nil && g.edges != nil && g.rationales != nil
 //@   requires tn: targetsAreNodes(g) && has(g.status, b)
 //@   ensures same_nodes{tn,dom,dom2}: sameNodes(g)
+//@   ensures frame_status{fs,fs2}: otherStatusMaps(g)
+//@   ensures frame_rationales{fr,fr2}: otherRationaleMaps(g)
+//@   loop node invariant fs{fs,fs2}: otherStatusMaps(g)
+//@   loop succ invariant fs2{fs,fs2}: otherStatusMaps(g)
+//@   loop node invariant fr{fr,fr2}: otherRationaleMaps(g)
+//@   loop succ invariant fr2{fr,fr2}: otherRationaleMaps(g)
 //@   ensures extensive{grew,grew2}: statusGrew(g)
 //@   ensures propagated{prop,prop2}: g.status[b] >= old(g.status[a])
 //@   ensures closed{pending,pending2}: forall x *Node, y *Node :: edge(g, x, y) && (old(g.status[y] >= g.status[x]) || (x == a && y == b)) ==> g.status[y] >= g.status[x]
@@ -114,6 +128,13 @@ package escape
 //@   property C15
 //@   requires wfGraph(g) && targetsAreNodes(g) && src != nil && dest != nil
 //@   ensures wf: wfGraph(g) && targetsAreNodes(g)
+//@   ensures frame_status: otherStatusMaps(g)
+//@   ensures frame_rationales: otherRationaleMaps(g)
+//@   ensures frame_edges: otherEdgeMaps(g)
+//@   ensures edge_maps_kept: forall m *Node :: old(has(g.edges, m)) ==> has(g.edges, m) && g.edges[m] == old(g.edges[m])
+//@   ensures new_edge_maps_fresh: forall m *Node :: has(g.edges, m) && !old(has(g.edges, m)) ==> fresh(g.edges[m])
+//@   ensures frame_inner: forall q map[*Node]edgeFlags, m *Node :: old(allocated(q)) && q != old(g.edges[src]) ==> (has(q, m) <==> old(has(q, m)))
+//@   modifies map(*Node;EscapeStatus), map(*Node;map[*Node]edgeFlags), map(*Node;edgeFlags), map(*Node;*dataflow.EscapeRationale)
 //@   ensures edge_added: has(g.edges, src) && has(g.edges[src], dest)
 //@   ensures closed_edge: g.status[dest] >= g.status[src]
 //@   ensures status_grew: statusGrew(g)
@@ -141,6 +162,10 @@ package escape
 //@   requires g != nil && g.status != nil && g.edges != nil && g.rationales != nil
 //@   requires tn: targetsAreNodes(g)
 //@   ensures nodes_same: old(has(g.status, n)) ==> sameNodes(g)
+//@   ensures frame_status: otherStatusMaps(g)
+//@   ensures frame_rationales: otherRationaleMaps(g)
+//@   loop pointee invariant fsm: otherStatusMaps(g)
+//@   loop pointee invariant frm: otherRationaleMaps(g)
 //@   loop pointee invariant dom: old(has(g.status, n)) ==> sameNodes(g)
 //@   loop pointee invariant tnk: targetsAreNodes(g)
 //@   ensures status_grew: statusGrew(g)
@@ -194,3 +219,27 @@ package escape
 //@ func IsEscapeTracked
 //@   property C14
 //@   pure
+
+// ---------------------------------------------------------------------------
+// C15: Merge(g, h) is an UPPER BOUND of both arguments in the status ordering and is
+// extensive on g: afterwards every node of h is at least as escaped in g as it is in
+// h, and no status of g was lowered. g and h are distinct graphs that share no map
+// (disjoint), both well formed with non-nil nodes.
+//@ spec wf2(g *EscapeGraph) bool = wfGraph(g) && targetsAreNodes(g)
+//@ spec nonNilNodes(h *EscapeGraph) bool = (forall m *Node :: has(h.status, m) ==> m != nil) && (forall x *Node, y *Node :: has(h.edges, x) && has(h.edges[x], y) ==> x != nil && y != nil)
+//@ spec disjointGraphs(g *EscapeGraph, h *EscapeGraph) bool = g != h && g.status != h.status && g.edges != h.edges && g.rationales != h.rationales && (forall x *Node, y *Node :: has(g.edges, x) && has(h.edges, y) ==> g.edges[x] != h.edges[y])
+//@ spec hSame(h *EscapeGraph) bool = (forall m *Node :: (has(h.status, m) <==> old(has(h.status, m))) && h.status[m] == old(h.status[m])) && (forall m *Node :: (has(h.edges, m) <==> old(has(h.edges, m))) && h.edges[m] == old(h.edges[m])) && h.status == old(h.status) && h.edges == old(h.edges) && h.rationales == old(h.rationales)
+//@ func EscapeGraph.Merge
+//@   property C15
+//@   requires wf2(g) && h != nil && wf2(h) && nonNilNodes(h) && disjointGraphs(g, h)
+//@   ensures upper_bound: forall m *Node :: old(has(h.status, m)) ==> g.status[m] >= old(h.status[m])
+//@   ensures extensive: statusGrew(g)
+//@   loop e invariant l1wf: wf2(g)
+//@   loop e invariant l1grew: statusGrew(g)
+//@   loop e invariant l1h: hSame(h) && nonNilNodes(h) && wf2(h)
+//@   loop e invariant l1dis: disjointGraphs(g, h)
+//@   loop node invariant l2wf: wf2(g)
+//@   loop node invariant l2grew: statusGrew(g)
+//@   loop node invariant l2h: hSame(h) && nonNilNodes(h) && wf2(h)
+//@   loop node invariant l2dis: disjointGraphs(g, h)
+//@   loop node invariant ub: forall m *Node :: visited(node, m) ==> g.status[m] >= h.status[m]
